@@ -860,6 +860,29 @@ func ruleR03g(c *Ctx) {
 		return true
 	})
 	c.floor("R03g", "writes of the escaper's input", 2, nw)
+	// the scan looks at every byte: the counter advances by the loop's own i++ and nothing in the body moves it
+	if loop != nil && counter != "" {
+		var moved []string
+		ast.Inspect(loop.Body, func(x ast.Node) bool {
+			switch n := x.(type) {
+			case *ast.AssignStmt:
+				for _, l := range n.Lhs {
+					if exprKey(l) == counter {
+						moved = append(moved, nodeText(n.Rhs[0]))
+					}
+				}
+			case *ast.IncDecStmt:
+				if exprKey(n.X) == counter {
+					moved = append(moved, counter+n.Tok.String())
+				}
+			}
+			return true
+		})
+		c.check(len(moved) == 0, "R03g", "soyhtml.htmlEscaper scans-every-byte", loop.Pos(), "the scan advances one byte at a time and examines each",
+			"the scan position is also moved inside the loop body ("+strings.Join(moved, ", ")+"): the bytes stepped over are copied to the output without being examined, so a special character among them is written raw")
+	} else {
+		c.unk("R03g", "soyhtml.htmlEscaper scans-every-byte", fd.Pos(), "the escaper's scan loop (a counted for loop around the switch) was not identified")
+	}
 }
 
 // absentSetTest recognises !strings.ContainsAny(x, S), strings.IndexAny(x, S) < 0 / == -1 and returns S.
@@ -1000,4 +1023,48 @@ func pkgAndName(t types.Type) (string, string, bool) {
 		return "", "", false
 	}
 	return n.Obj().Pkg().Path(), n.Obj().Pkg().Name() + "." + n.Obj().Name(), true
+}
+
+// R03i: template text nodes are built by the parser only. A RawTextNode is written to the output as it is
+// (no escaping, no line joining): one built anywhere else — from a global's value, from data, from another
+// node — puts text into the output that never met the renderer's escaping decision or the parser's
+// normaliser.
+func ruleR03i(c *Ctx) {
+	inParser, outside := 0, 0
+	var rels []string
+	for rel := range c.Pkgs {
+		rels = append(rels, rel)
+	}
+	sort.Strings(rels)
+	for _, rel := range rels {
+		p := c.Pkgs[rel]
+		info := p.TypesInfo
+		for _, fd := range c.allFuncDecls(rel) {
+			if strings.HasSuffix(c.Fset.Position(fd.Pos()).Filename, "_test.go") {
+				continue
+			}
+			ast.Inspect(fd.Body, func(x ast.Node) bool {
+				cl, ok := x.(*ast.CompositeLit)
+				if !ok {
+					return true
+				}
+				tv, ok := info.Types[cl]
+				if !ok {
+					return true
+				}
+				if r, tn, ok := relPkgOfType(tv.Type); !ok || r != "ast" || tn != "RawTextNode" {
+					return true
+				}
+				if rel == "parse" {
+					inParser++
+					return true
+				}
+				outside++
+				c.bad("R03i", fmt.Sprintf("%s builds RawTextNode#%d", c.declKey(rel, fd), outside), cl.Pos(),
+					"a raw text node is built outside the parser: its text is written to the output verbatim, whatever the autoescape mode of the template it ends up in")
+				return true
+			})
+		}
+	}
+	c.floor("R03i", "raw text nodes built by the parser", 3, inParser)
 }
